@@ -64,6 +64,16 @@ Theorem c20_force_change_reaches_complete : forall ti v rest f ti' v' f',
 Proof. exact force_change_reaches_complete. Qed.
 Print Assumptions c20_force_change_reaches_complete.
 
+(* ... for the EMPTY value too (seeded/C20-10 completes a zero-length value without force_change) *)
+Theorem c20_force_change_reaches_complete_empty : forall ti rest f,
+  forward (CTaskIsComplete ti (data_of [] rest) f) = PComplete (ti_in ti) [] f.
+Proof. exact force_change_reaches_complete_empty. Qed.
+Print Assumptions c20_force_change_reaches_complete_empty.
+
+Theorem c20_empty_noforce_refuted : exists a b, ~ same_call a b /\ forward_empty_noforce a = forward_empty_noforce b.
+Proof. exact forward_empty_noforce_conflates. Qed.
+Print Assumptions c20_empty_noforce_refuted.
+
 Theorem c20_schema_version_reaches_attach : forall e path rest v e' path' v' r,
   forward (CAttachDB e (data_of path rest) v) = PAttachSQLite e' path' v' r -> v' = v /\ path' = path /\ r = true.
 Proof. exact schema_version_reaches_attach. Qed.
